@@ -354,6 +354,30 @@ def corpus(vf):
         e = {'-': (X - Y, Y - X), '/': (X / (Y * Y + 1), (Y * Y + 1) / X)}[op]
         V.add((e[0] * v + e[1] * v.dx(d - 1)) * vf.dx); return V
 
+    def near_constants(d, which):
+        # subexpressions that differ only in a constant beyond the 6th significant digit must stay distinct (complex enough to be CSE candidates)
+        V = vf.VForm(d, arity=1); v = V.basisfuns(); f = V.input('f'); g = V.input('g')
+        a, b = {'big': (1234567.0, 1234568.0), 'third': (1.0 / 3.0, 0.3333333), 'unit': (1.0, 1.000004), 'tiny': (8.854e-12, 0.0)}[which]
+        V.add((vf.as_expr(a) * f * g * g - vf.as_expr(b) * f * g * g + vf.sin(f)) * v * vf.dx); return V
+
+    def const_scope_let(d, kind):
+        # a variable that depends on parameters only (constant scope) feeding a field-scope variable / the kernel
+        V = vf.VForm(d); u, v = V.basisfuns(); f = V.input('f'); a = V.parameter('a', shape=(2,)); b = V.parameter('b')
+        c = V.let('c', vf.inner(a, a) * b)
+        if kind == 'field':
+            K = V.let('K', c * f + 1); V.add(K * vf.inner(vf.grad(u), vf.grad(v)) * vf.dx)
+        elif kind == 'kernel':
+            V.add(c * u * v * vf.dx)
+        else:
+            c2 = V.let('c2', c * c + b); K = V.let('K', c2 * f); V.add((K + c) * u * v * vf.dx)
+        return V
+
+    for d in (1, 2):
+        for which in ('big', 'third', 'unit', 'tiny'):
+            add('near_constants(%d,%s)' % (d, which), lambda d=d, which=which: near_constants(d, which))
+        for kind in ('field', 'kernel', 'chain'):
+            add('const_scope_let(%d,%s)' % (d, kind), lambda d=d, kind=kind: const_scope_let(d, kind))
+
     def two_space(d, kind):
         # Petrov-Galerkin: trial functions from space 0, test functions from space 1 (different knot vectors / degrees on a common mesh)
         if kind == 'mass':
